@@ -98,6 +98,9 @@ inductive Req
   /-- `read m:p` (`w = false`) / `change m:p v` (`w = true`); `e` is what the driver's `read_p` / `write_p` produces: the value
   (with the time stamp `announceUpdate` gives it) or the error it raises -/
   | rw (w : Bool) (m : Mod) (p : Par) (e : Entry)
+  /-- a request of action `a` with specifier `s` that the handler refuses on its first lines (`activate` / `deactivate` /
+  `read` with data, `read` / `change` without specifier: `ProtocolError` before anything is looked at) -/
+  | malformed (a : Name) (s : Name)
   deriving DecidableEq, Repr, Inhabited
 
 /-- how the dispatcher treats a `read` / `change` of a parameter -/
@@ -242,6 +245,7 @@ def validScope (cfg : Cfg) : Scope → Bool
 def validReq (cfg : Cfg) : Req → Bool
   | .activate s => validScope cfg s
   | .rw w m p _ => cfg.rw w m p != .refuse
+  | .malformed _ _ => false
   | _ => true
 
 def afterSnap (s : Scope) : List Mod → HPc
@@ -316,6 +320,7 @@ def tableWrite (σ : State) (c : Conn) : Req → State
   | .ident => resetConn σ c
   | .disconnect => resetConn σ c
   | .rw _ _ _ _ => σ
+  | .malformed _ _ => σ
 
 /-- is `m:p` an exported parameter of an exported module (`pobj.export`; the parameters of a module that is not exported
 are not exported either) -/
